@@ -320,7 +320,7 @@ func (x *Exec) gammaCrit(c []interface{}) query.Criteria {
 }
 
 func (x *Exec) gammaQuery(e E) *query.Query {
-	q := query.NewQuery(e["c"].(string))
+	q := query.NewQuery(unescName(e["c"].(string)))
 	for _, b := range toList(e["q"]) {
 		bl := toList(b)
 		switch bl[0].(string) {
@@ -584,7 +584,7 @@ func (x *Exec) Audit(b *Backend) (res E) {
 	for _, name := range order {
 		c := colls[name]
 		if !c.hasMeta {
-			orphans = append(orphans, []interface{}{name, len(c.docIds), len(c.entries)})
+			orphans = append(orphans, []interface{}{escName(name), len(c.docIds), len(c.entries)})
 			continue
 		}
 		docs := make([]interface{}, 0, len(c.docIds))
@@ -606,7 +606,7 @@ func (x *Exec) Audit(b *Backend) (res E) {
 		for _, f := range c.idx {
 			idx = append(idx, B(f))
 		}
-		outColls = append(outColls, E{"name": name, "size": c.size, "idx": idx, "docs": docs, "entries": entries})
+		outColls = append(outColls, E{"name": escName(name), "size": c.size, "idx": idx, "docs": docs, "entries": entries})
 	}
 	return E{"colls": outColls, "orphans": orphans, "junk": junk}
 }
@@ -648,6 +648,7 @@ func (x *Exec) Run(b *Backend, e E, genIds [][]byte) E {
 	op := e["op"].(string)
 	db := b.db
 	coll, _ := e["c"].(string)
+	coll = unescName(coll)
 
 	res := b.guarded(func(res E) error {
 		switch op {
@@ -663,7 +664,7 @@ func (x *Exec) Run(b *Backend, e E, genIds [][]byte) E {
 			v, err := db.ListCollections()
 			out := make([]interface{}, 0)
 			for _, s := range v {
-				out = append(out, s)
+				out = append(out, escName(s))
 			}
 			res["val"] = out
 			return err
@@ -869,7 +870,7 @@ func (x *Exec) Run(b *Backend, e E, genIds [][]byte) E {
 		case "Import":
 			return db.ImportCollection(coll, x.filePath(e["path"])+"."+b.Name)
 		case "CreateByQuery":
-			return db.CreateCollectionByQuery(e["name"].(string), x.gammaQuery(e))
+			return db.CreateCollectionByQuery(unescName(e["name"].(string)), x.gammaQuery(e))
 		case "Close":
 			err := db.Close()
 			b.open = false
